@@ -16,6 +16,26 @@ use engine::verif_seam::Event;
 use serde_json::{json, Value};
 use std::collections::HashMap;
 
+
+/// `retrieve` hands out `Option<&Entry>` today; an engine that returns the entry by value is
+/// just as good. Both are accepted, so that such a change still builds under the harness.
+pub trait AsEntry {
+    fn as_entry(self) -> Option<engine::transposition::Entry>;
+}
+impl AsEntry for Option<&engine::transposition::Entry> {
+    fn as_entry(self) -> Option<engine::transposition::Entry> {
+        self.copied()
+    }
+}
+impl AsEntry for Option<engine::transposition::Entry> {
+    fn as_entry(self) -> Option<engine::transposition::Entry> {
+        self
+    }
+}
+fn entry_of<T: AsEntry>(x: T) -> Option<engine::transposition::Entry> {
+    x.as_entry()
+}
+
 #[derive(Clone, Debug, PartialEq)]
 pub enum Op {
     Store { key: u64, eval: i32, mv: Option<[u8; 4]>, depth: u8, bound: u8 },
@@ -203,7 +223,7 @@ pub fn replay_ops(ops: &[Op]) -> (Option<(String, String)>, Counters) {
                 let at = |v: (String, String)| (v.0, format!("op {}: {}", i, v.1));
                 match op {
                     Op::Store { key, eval, mv, depth, bound } => {
-                        let before = match seen_of(tt.retrieve(*key).copied(), *key) {
+                        let before = match seen_of(entry_of(tt.retrieve(*key)), *key) {
                             Ok(x) => x,
                             Err(v) => return Some(at(v)),
                         };
@@ -211,7 +231,7 @@ pub fn replay_ops(ops: &[Op]) -> (Option<(String, String)>, Counters) {
                             return Some(at(v));
                         }
                         tt.store(*key, *eval, mv.map(mk_move), *depth, bound_of(*bound));
-                        let after = match seen_of(tt.retrieve(*key).copied(), *key) {
+                        let after = match seen_of(entry_of(tt.retrieve(*key)), *key) {
                             Ok(x) => x,
                             Err(v) => return Some(at(v)),
                         };
@@ -222,7 +242,7 @@ pub fn replay_ops(ops: &[Op]) -> (Option<(String, String)>, Counters) {
                         last.insert(*key, after);
                     }
                     Op::Retrieve { key } => {
-                        let got = match seen_of(tt.retrieve(*key).copied(), *key) {
+                        let got = match seen_of(entry_of(tt.retrieve(*key)), *key) {
                             Ok(x) => x,
                             Err(v) => return Some(at(v)),
                         };
@@ -457,7 +477,7 @@ pub fn run_huge(rng: &mut Rng, n_keys: u64) -> (Option<(String, String)>, Counte
         for (n, (i, st)) in ops.iter().enumerate() {
             let key = key_of(*i);
             let filled = ModelEntry { eval: *i as i32 & 0xFFFF, mv: None, depth: depth_of(*i), bound: 0 };
-            let before = match seen_of(tt.retrieve(key).copied(), key) {
+            let before = match seen_of(entry_of(tt.retrieve(key)), key) {
                 Ok(x) => x,
                 Err(v) => return Some(v),
             };
@@ -472,7 +492,7 @@ pub fn run_huge(rng: &mut Rng, n_keys: u64) -> (Option<(String, String)>, Counte
                 }
                 Some(new) => {
                     tt.store(key, new.eval, None, new.depth, bound_of(new.bound));
-                    let after = match seen_of(tt.retrieve(key).copied(), key) {
+                    let after = match seen_of(entry_of(tt.retrieve(key)), key) {
                         Ok(x) => x,
                         Err(v) => return Some(v),
                     };
